@@ -194,16 +194,19 @@ def body_bary(case):
     # (0) the two variants do not influence each other (no hidden module state): un-centred, centred, un-centred again; the
     # centred image is the un-centred one minus the centroid of the corners' images
     with calling("barycentric_to_cartesian (un-centred / centred / un-centred)"):
-        Xn = X / np.where(np.abs(X).sum(axis=1, keepdims=True) > 0, X.sum(axis=1, keepdims=True), 1.0)
+        Xn = X
         Y0 = np.asarray(b.barycentric_to_cartesian(Xn, center=False))
         Yc = np.asarray(b.barycentric_to_cartesian(Xn, center=True))
         Y1 = np.asarray(b.barycentric_to_cartesian(Xn, center=False))
         corners = np.asarray(b.barycentric_to_cartesian(np.eye(n), center=False))
     check(np.array_equal(Y0, Y1, equal_nan=True), "bary:call-order-dependence", "the un-centred conversion gives another result after a centred call")
-    rows_ok = np.abs(Xn.sum(axis=1) - 1.0) < 1e-9
-    if np.any(rows_ok):
-        check(np.all(np.abs(Yc[rows_ok] - (Y0[rows_ok] - corners.mean(axis=0))) <= 1e-12 * (1 + np.abs(Y0[rows_ok]))), "bary:centred-is-shifted",
-              "centred image != un-centred image minus the centroid of the simplex")
+    check(np.all(np.abs(Yc - (Y0 - corners.mean(axis=0))) <= 1e-12 * (1 + np.abs(Y0))), "bary:centred-is-shifted",
+          "centred image != un-centred image minus the centroid of the simplex")
+    with calling("barycentric_to_cartesian (rows that do not sum to 1)"):
+        Yr0 = np.asarray(b.barycentric_to_cartesian(X, center=False))
+        Yrc = np.asarray(b.barycentric_to_cartesian(X, center=True))
+    check(np.all(np.abs(Yrc - (Yr0 - corners.mean(axis=0))) <= 1e-12 * (1 + np.abs(Yr0))), "bary:centred-is-shifted",
+          "centred image != un-centred image minus the centroid of the simplex (rows with any total: the map is affine with ONE offset)")
     # (b) affine: image of an affine combination = combination of images
     w = np.asarray(case["w"], dtype=float)
     if abs(w.sum()) > 1e-3:
